@@ -15,6 +15,7 @@ import (
 	"time"
 
 	"github.com/prometheus/client_golang/prometheus"
+	"github.com/prometheus/prometheus/model/labels"
 	"pgregory.net/rapid"
 
 	"github.com/cloudflare/pint/internal/promapi"
@@ -43,6 +44,12 @@ type Scenario struct {
 	EndOffsetNs int64                `json:"end_offset_ns"` // query end = 2000-01-03T00:00:00Z + offset (ns precision)
 	Series      [][]Interval         `json:"series"`
 	Fault       *SliceFault          `json:"fault,omitempty"`
+	// SecondStepS: after the first query the same expression is asked again over the same
+	// range with another step, on the same failover group (shared cache); 0 = no second query
+	SecondStepS int64 `json:"second_step_s,omitempty"`
+	// ExtraLabels[i]: series i carries an additional label (its name differs per series), so
+	// the series of one response do not all have the same label names
+	ExtraLabels []bool `json:"extra_labels,omitempty"`
 }
 
 var steps = []int64{10, 15, 30, 60, 60, 300, 300, 300, 420, 660, 900, 1800, 2700, 3600, 5400, 7200, 9000, 10800, 14400, 14460, 18000, 21600}
@@ -131,6 +138,15 @@ func draw(rt *rapid.T) Scenario {
 			}
 		}
 		sc.Series = append(sc.Series, ivs)
+	}
+	for range sc.Series {
+		sc.ExtraLabels = append(sc.ExtraLabels, rapid.Bool().Draw(rt, "extralabel"))
+	}
+	if rapid.IntRange(0, 3).Draw(rt, "second") == 0 {
+		sc.SecondStepS = steps[rapid.IntRange(0, len(steps)-1).Draw(rt, "step2")]
+		if sc.SecondStepS == sc.StepS || sc.LookbackS/sc.SecondStepS > 4000 {
+			sc.SecondStepS = 0
+		}
 	}
 	if rapid.IntRange(0, 9).Draw(rt, "faulty") < 2 {
 		modes := []string{simprom.ModeHTTP500, simprom.ModeStall, simprom.ModeTruncated, simprom.ModeBadData, simprom.ModeReset, simprom.ModeJSONServerErr}
@@ -225,10 +241,34 @@ func (b *presenceBackend) Answer(req *simprom.Request, serial int) (int, string)
 			sb.WriteString(",")
 		}
 		first = false
-		fmt.Fprintf(&sb, `{"metric":{"__name__":"m","s":"%d"},"values":[%s]}`, si, strings.Join(vals, ","))
+		fmt.Fprintf(&sb, `{"metric":%s,"values":[%s]}`, seriesLabelsJSON(b.sc, si), strings.Join(vals, ","))
 	}
 	sb.WriteString(`]}}`)
 	return 200, sb.String()
+}
+
+// seriesLabels is the label set of model series si.
+func seriesLabels(sc *Scenario, si int) map[string]string {
+	m := map[string]string{"__name__": "m", "s": strconv.Itoa(si)}
+	if si < len(sc.ExtraLabels) && sc.ExtraLabels[si] {
+		m[fmt.Sprintf("extra%d", si%2)] = "x"
+		m["instance"] = "i1"
+	}
+	return m
+}
+
+func seriesLabelsJSON(sc *Scenario, si int) string {
+	m := seriesLabels(sc, si)
+	keys := make([]string, 0, len(m))
+	for k := range m {
+		keys = append(keys, k)
+	}
+	sort.Strings(keys)
+	parts := []string{}
+	for _, k := range keys {
+		parts = append(parts, fmt.Sprintf("%q:%q", k, m[k]))
+	}
+	return "{" + strings.Join(parts, ",") + "}"
 }
 
 func init() {
@@ -256,7 +296,7 @@ type oneResult struct {
 	order    string // arrival order of slice responses
 }
 
-func runOnce(t *testing.T, sc *Scenario, sched detsim.SchedConfig, record bool) oneResult {
+func runOnce(t *testing.T, sc *Scenario, sched detsim.SchedConfig, record bool, stepS, warmStepS int64) oneResult {
 	var res oneResult
 	res.live = true
 	endAbs := base.Add(time.Duration(sc.EndOffsetNs))
@@ -292,8 +332,17 @@ func runOnce(t *testing.T, sc *Scenario, sched detsim.SchedConfig, record bool) 
 			defer close(done)
 			s.Name("caller")
 			s.Yield("start", "caller")
+			if warmStepS > 0 {
+				// an earlier query for the same expression and range with another step fills the shared cache
+				_, _ = fg.RangeQuery(context.Background(), "m", absRange{
+					start: endAbs.Add(-time.Duration(sc.LookbackS) * time.Second), end: endAbs, step: time.Duration(warmStepS) * time.Second,
+				})
+				be.mu.Lock()
+				be.grids, be.starts, be.ends = map[int64]struct{}{}, nil, nil
+				be.mu.Unlock()
+			}
 			rr, err := fg.RangeQuery(context.Background(), "m", absRange{
-				start: endAbs.Add(-time.Duration(sc.LookbackS) * time.Second), end: endAbs, step: time.Duration(sc.StepS) * time.Second,
+				start: endAbs.Add(-time.Duration(sc.LookbackS) * time.Second), end: endAbs, step: time.Duration(stepS) * time.Second,
 			})
 			res.err = err
 			if rr != nil {
@@ -318,7 +367,7 @@ func runOnce(t *testing.T, sc *Scenario, sched detsim.SchedConfig, record bool) 
 	})
 	res.grids = len(be.grids)
 	res.slices = len(be.starts)
-	res.step = sc.StepS * 1000
+	res.step = stepS * 1000
 	if len(be.starts) > 0 {
 		res.firstReq = be.starts[0]
 		for _, v := range be.starts {
@@ -342,8 +391,28 @@ func run(t *testing.T, sc Scenario, record bool) *detsim.Outcome {
 	var firstStr string
 	var firstOrder string
 	trace := uint64(0)
+	type planned struct {
+		sched       detsim.SchedConfig
+		step, warm  int64
+		compareWith int // index of the run whose result must be identical (-1: none)
+	}
+	var plan []planned
 	for i, sched := range sc.Scheds {
-		r := runOnce(t, &sc, sched, record)
+		cw := -1
+		if i > 0 {
+			cw = 0
+		}
+		plan = append(plan, planned{sched, sc.StepS, 0, cw})
+	}
+	if sc.SecondStepS > 0 && sc.Fault == nil {
+		plan = append(plan, planned{sc.Scheds[0], sc.SecondStepS, sc.StepS, -1})
+	}
+	for i, pl := range plan {
+		sched := pl.sched
+		r := runOnce(t, &sc, sched, record && i == 0, pl.step, pl.warm)
+		if pl.warm > 0 {
+			out.Probes["second_query_other_step"]++
+		}
 		out.Sched.Decisions += r.stats.Decisions
 		trace = trace*1099511628211 ^ r.stats.Trace
 		out.Sched.Log = append(out.Sched.Log, r.stats.Log...)
@@ -351,7 +420,7 @@ func run(t *testing.T, sc Scenario, record bool) *detsim.Outcome {
 		for k, v := range r.faults {
 			out.Faults[k] += v
 		}
-		who := fmt.Sprintf("schedule %d (step=%ds lookback=%ds end=%s concurrency=%d, %d slices)", i, sc.StepS, sc.LookbackS, endAbs.Format(time.RFC3339Nano), sc.Concurrency, r.slices)
+		who := fmt.Sprintf("schedule %d (step=%ds after a query with step=%ds, lookback=%ds end=%s concurrency=%d, %d slices)", i, pl.step, pl.warm, sc.LookbackS, endAbs.Format(time.RFC3339Nano), sc.Concurrency, r.slices)
 		if !r.live {
 			out.AddViolation("liveness", who+": RangeQuery did not return within 2h of simulated time (leak: "+r.leak+")")
 			continue
@@ -392,6 +461,14 @@ func run(t *testing.T, sc Scenario, record bool) *detsim.Outcome {
 		bySeries := map[string]promapi.MetricTimeRanges{}
 		for _, mr := range r.ranges {
 			bySeries[mr.Labels.Get("s")] = append(bySeries[mr.Labels.Get("s")], mr)
+			// every returned range must carry exactly the labels of its series
+			si, _ := strconv.Atoi(mr.Labels.Get("s"))
+			want := seriesLabels(&sc, si)
+			got := map[string]string{}
+			mr.Labels.Range(func(l labels.Label) { got[l.Name] = l.Value })
+			if fmt.Sprint(want) != fmt.Sprint(got) {
+				out.AddViolation("wrong-labels", fmt.Sprintf("%s: a range of series %d is reported with labels %v, the server sent %v", who, si, got, want))
+			}
 		}
 		for si, ivs := range sc.Series {
 			rs := bySeries[strconv.Itoa(si)]
@@ -437,7 +514,7 @@ func run(t *testing.T, sc Scenario, record bool) *detsim.Outcome {
 		if firstStr == "" && i == 0 {
 			firstStr = str
 			firstOrder = r.order
-		} else if i > 0 {
+		} else if pl.compareWith == 0 {
 			if r.order != firstOrder {
 				out.Probes["different_arrival_order"]++
 				out.Nontrivial = true
